@@ -152,6 +152,14 @@ Merge(i, j, nc) ==
                             !.g = [cnt |-> a.g.cnt + b.g.cnt,
                                    lo |-> IF a.g.cnt = 0 THEN b.g.lo ELSE Min2(a.g.lo, b.g.lo),
                                    hi |-> IF a.g.cnt = 0 THEN b.g.hi ELSE Max2(a.g.hi, b.g.hi)]]]
+\* i.merge(i): the sketch absorbs its own content once more (the weight doubles, the extremes stay)
+MergeSelf(i, nc) ==
+  /\ i \in Live
+  /\ LET a == obj[i] IN
+     IF a.total = 0 THEN UNCHANGED obj
+     ELSE /\ CompressOK(a, Items(a) \o Items(a), nc)
+          /\ obj' = [obj EXCEPT ![i] = [a EXCEPT !.cent = nc, !.buf = <<>>, !.total = 2 * a.total,
+                                                 !.g = [cnt |-> 2 * a.g.cnt, lo |-> a.g.lo, hi |-> a.g.hi]]]
 Copy(i, j) == i \in Live /\ obj' = (j :> obj[i]) @@ obj
 Destroy(i) == i \in Live /\ obj' = [x \in Live \ {i} |-> obj[x]]
 
@@ -207,6 +215,7 @@ Next == \E i \in Ids :
           \/ i \in Live /\ obj[i].buf # <<>> /\ \E nc \in Cands(Items(obj[i]), Cap) : Compress(i, nc)
           \/ \E j \in Ids \ {i} : i \in Live /\ j \in Live /\ obj[i].total + obj[j].total <= MaxN
                 /\ \E nc \in Cands(Items(obj[i]) \o Items(obj[j]), Cap) : Merge(i, j, nc)
+          \/ i \in Live /\ 2 * obj[i].total <= MaxN /\ \E nc \in Cands(Items(obj[i]) \o Items(obj[i]), Cap) : MergeSelf(i, nc)
           \/ i \in Live /\ Destroy(i)
 Spec == Init /\ [][Next]_vars
 
